@@ -4,7 +4,8 @@
 From Coq Require Import String.
 From Coq Require Import ZArith List Bool.
 From FxV Require gen.Gen_EndBlock.
-From FxV Require Import gen.Gen_Attest model.M_Attest proofs.P_Attest proofs.P_AttestGen.
+From FxV Require Import gen.Gen_Attest model.M_Attest proofs.P_Attest proofs.P_AttestGen proofs.P_AttestTree.
+From FxV Require Import gen.Gen_AttestFacts.
 Import ListNotations.
 Open Scope list_scope.
 Open Scope Z_scope.
@@ -42,7 +43,33 @@ Theorem C02_prefix_no_double_count_guarded : forall c h k a,
 Proof. exact votes_distinct_guarded. Qed.
 Print Assumptions C02_prefix_no_double_count_guarded.
 
-(* PRIMARY (the code as it is since /repo 9161b71, c_unbond_del = false — probed on the real keeper every run):
+(* ---- ON THIS TREE (gen/Gen_AttestFacts.v, written on every run by `harness/c01 -facts` from probes on the real keeper;
+        a revert of the repair of C02-2 flips the constant and breaks C02_tree_cfg_is_repaired and what follows) ---- *)
+Theorem C02_tree_cfg_is_repaired :
+  c_unbond_del gen_tree_cfg = false /\ c_cursor_clamp gen_tree_cfg = false /\ 0 <= c_threshold gen_tree_cfg.
+Proof. exact tree_cfg_is_repaired. Qed.
+Print Assumptions C02_tree_cfg_is_repaired.
+
+Theorem C02_no_double_count_on_tree : forall h k a,
+  aget keq k (atts (run gen_tree_cfg init h)) = Some a -> NoDup (a_votes a).
+Proof. exact no_double_count_on_tree. Qed.
+Print Assumptions C02_no_double_count_on_tree.
+
+Theorem C02_quorum_distinct_on_tree : forall h b n cl park ms,
+  let s := run gen_tree_cfg init h in
+  let s' := fst (vote gen_tree_cfg s b n cl park ms) in
+  last_obs s' <> last_obs s ->
+  exists a, aget keq (n, cl) (atts s') = Some a /\ a_obs a = true /\ NoDup (a_votes a) /\
+            66 * last_total s <= 100 * dpower (oracles s) (a_votes a) + 99.
+Proof. exact quorum_distinct_on_tree. Qed.
+Print Assumptions C02_quorum_distinct_on_tree.
+
+Theorem C02_total_ge_online_on_tree : forall h,
+  online_power (oracles (run gen_tree_cfg init h)) <= last_total (run gen_tree_cfg init h).
+Proof. exact total_ge_online_on_tree. Qed.
+Print Assumptions C02_total_ge_online_on_tree.
+
+(* GENERAL (any configuration whose code keeps the cursor on unbond; since /repo 9161b71, c_unbond_del = false):
    no oracle is counted twice, every history *)
 Theorem C02_no_double_count : forall c h k a,
   c_unbond_del c = false ->
@@ -72,6 +99,16 @@ Theorem C02_prefix_double_count_refuted :
               100 * dpower (oracles s) (a_votes a) + 99 < 66 * last_total s.
 Proof. exact revote_refuted. Qed.
 Print Assumptions C02_prefix_double_count_refuted.
+
+(* the same, about the explicit variant cfg0 (c_unbond_del := true) and the explicit history, evaluated by vm_compute *)
+Theorem C02_prefix_double_count_refuted_explicit :
+  c_unbond_del cfg0 = true /\
+  let s := run cfg0 init h_rebond in
+  exists a, aget keq (1, 1) (atts s) = Some a /\ a_obs a = true /\ last_obs s = 1 /\
+            a_votes a = [0; 1; 0] /\ nonces_of 0 (vlog s) = [1; 1] /\
+            last_total s = 1000 /\ dpower (oracles s) (a_votes a) = 500.
+Proof. exact revote_refuted_explicit. Qed.
+Print Assumptions C02_prefix_double_count_refuted_explicit.
 
 (* the literal reading "P >= 66 % of total" is false by less than one power unit: 331 of 503 *)
 Theorem C02_truncation_refuted :
